@@ -628,7 +628,9 @@ def main():
     d3_planted = list(opspace.planted_cases(a.seed, 'quick', include_d3=True))
     evaluated = runs = nontrivial = conv_errors = 0
     failures, samples, seen, conv_samples = [], [], set(), []
-    random.Random(a.seed).shuffle(items)     # a run cut short by the budget still samples the whole space
+    # a run cut short by the budget still samples the whole space; witnesses and the static-only cases go first
+    random.Random(a.seed).shuffle(items)
+    items.sort(key=lambda it: it[1] not in ('d3', 'static'))
     done = 0
     for r in harness.pool_map(check_item, items, chunksize=1):
       done += 1
